@@ -237,8 +237,10 @@ Lemma fst_run_search c t q : fst (run_search lang_match flavour c t q) = c.
 Proof.
   unfold run_search. destruct (q_index q) as [n|].
   - destruct (negb (mem n (t_indexes t)) && negb match n with [] => true | _ => false end); cbn; auto.
+    destruct (check_expressions _ _ _) as [u| | |]; cbn; auto.
     destruct (search_data _ _ _ _) as [[[items lek] f]| | |]; cbn; auto.
-  - destruct (search_data _ _ _ _) as [[[items lek] f]| | |]; cbn; auto.
+  - destruct (check_expressions _ _ _) as [u| | |]; cbn; auto.
+    destruct (search_data _ _ _ _) as [[[items lek] f]| | |]; cbn; auto.
 Qed.
 
 (* every step preserves the invariant *)
@@ -268,7 +270,7 @@ Proof.
     destruct (validate_expr_attrs _ _ _); cbn; auto.
     destruct (lookup table (c_tables c)); cbn; auto. now rewrite fst_run_search.
   - now apply CInv_batch_write.
-  - unfold batch_get. destruct flavour; cbn; auto. destruct (c_failure c); cbn; auto.
+  - unfold batch_get. destruct flavour; cbn; auto. destruct (c_failure c); cbn; auto. destruct (negb _); cbn; auto.
   - destruct (c_failure c); cbn; auto.
   - eapply CInv_tables_only; [reflexivity|exact H].
   - eapply CInv_tables_only; [reflexivity|exact H].
